@@ -85,6 +85,12 @@ def gen(rs: int, tier: str, index: int) -> dict:
                 atts[-1]["steps"] = [min(atts[-1]["steps"][0], 20_000)]
         m["attempts"] = atts
         m.pop("save", None)
+        m.pop("net", None)
+        if r.random() < 0.06:
+            # the broker refuses the n-th re-send of this message (kick() raises inside the retry middleware's on_error)
+            fail_at = r.randint(1, 3)
+            m["net"] = [{} for _ in range(fail_at)] + [{"fail": True, "fail_exc": r.choice(["SimFault", "OSError", "BrokerError"])}, {}]
+            m["resend_fails_at"] = fail_at
     valid = [m for m in s["messages"] if m.get("kind", "valid") == "valid"]
     if r.random() < 0.15 and valid:
         # the retry middleware is installed with broker.add_middlewares() on the running workers, after they have already processed
@@ -142,6 +148,11 @@ def model(script: dict, m: dict) -> List[dict]:
         kind = classify(a, m.get("timeout"))
         resent = kind == "fail" and enabled and (i + 1) < M
         saved = kind != "nores" and not (resent and rc.get("no_result_on_retry", True))
+        if resent and m.get("resend_fails_at") == i + 1:
+            # the re-send itself fails: the exception leaves on_error and callback(); nothing is stored for this attempt, the message
+            # is not acknowledged (the broker still has it), and no further attempt exists in this run
+            res.append({"i": i, "kind": kind, "resent": False, "saved": False, "resend_failed": True})
+            break
         res.append({"i": i, "kind": kind, "resent": resent, "saved": saved})
         if not resent:
             break
@@ -175,7 +186,13 @@ def oracle(script: dict, run: Any) -> List[Violation]:
                                  f"(outcomes {[x['kind'] for x in exp]}, labels {m.get('labels')}, middleware {rc})", k=k, got=len(got), want=len(exp)))
             continue
         kicks = [e for e in h.kind("kick_call") if e[5]["k"] == k]
-        if len(kicks) != len(exp):
+        if exp[-1].get("resend_failed"):
+            d_last = got[-1][4]
+            acks = h.of(d_last, "ack_call")
+            if acks and (script["config"].get("ack_type") or "when_saved") != "when_received":
+                out.append(Violation("C11/acked-although-resend-failed", f"message {k}: the re-send of attempt {exp[-1]['i']} failed (the broker refused it), nothing is "
+                                     f"stored, and yet delivery {d_last} was acknowledged: the task is lost", k=k))
+        if len(kicks) != len(exp) + (1 if exp[-1].get("resend_failed") else 0):
             out.append(Violation("C11/wrong-number-of-sends", f"message {k}: sent {len(kicks)} times for {len(exp)} executions"))
         want_user = {n: v for n, v in (m.get("labels") or {}).items()}
         if m.get("timeout") is not None:
@@ -223,7 +240,11 @@ def oracle(script: dict, run: Any) -> List[Violation]:
 def probes(script: dict, run: Any) -> Dict[str, int]:
     res = {"resent_at_least_once": 0, "bound_reached": 0, "success_after_retries": 0, "no_result_stops_retry": 0, "disabled_not_resent": 0,
            "timeout_attempt": 0, "max_retries_str_label": 0, "max_retries_zero_or_one": 0,
-           "retry_middleware_installed_after_first_failures": int(any(m.get("warmup") for m in script["messages"]))}
+           "retry_middleware_installed_after_first_failures": int(any(m.get("warmup") for m in script["messages"])),
+           "resend_refused_by_broker": 0}
+    for m in script["messages"]:
+        if m.get("kind", "valid") == "valid" and m.get("resend_fails_at") and model(script, m)[-1].get("resend_failed"):
+            res["resend_refused_by_broker"] = 1
     for m in script["messages"]:
         if m.get("kind", "valid") != "valid":
             continue
